@@ -915,7 +915,7 @@ def inline_module_constants(tree, known_names=None):
 
 
 # ------------------------------------------------------------------------------------------------ P0b numpy spellings
-_METHOD_FORM = {"sum", "any", "all", "cumsum", "prod", "squeeze", "ravel"}
+_METHOD_FORM = {"sum", "any", "all", "cumsum", "prod", "squeeze", "ravel", "argsort"}
 
 
 def numpy_spellings(tree):
